@@ -30,14 +30,40 @@ CHECKS.append(
               "parameters are not linked to impls (monomorphic recursion through them is bounded by type nesting). "
               "Third-party crates not analysed.",
          technique="static: SCCs of the MIR call graph + audited table + argument-provenance patterns"))
+CHECKS.append(
+    dict(id="C10", level="other", engine="E1+E3",
+         text="Enumerates every lifetime-only transmute in sophia_inmem/sophia_api from MIR and enforces the ownership "
+              "discipline that makes the self-borrowing term index sound: no derived/field-wise Clone of the borrower "
+              "field, only lookup/entry access to the owner field, key inserted on every path after the borrow is stored, "
+              "borrow taken from the entry's own key; ensure_owned only extends a fresh clone under is_owned(); store "
+              "Clone impls field-wise. Decides which code may exist (a necessary condition for memory safety), not a run.",
+         note="Trusted: rustc MIR; std containers. Known limitation: the stores hand out &SimpleTerm<'static>, see "
+              "DESIGN.md C10 (type-level escape, E4 witness planned).",
+         technique="static: MIR unsafe-site enumeration + who-may-call / must-pass-through / derive rules"))
+CHECKS.append(
+    dict(id="C19", level="other", engine="E1+E3",
+         text="Taint rule over sophia_resource: every file-system call whose path depends on an IRI parameter is "
+              "`dir.join(sub)` with untainted dir and is dominated by a recognised confinement check on the same sub "
+              "(components().all(Normal), closure decided from its switch table; or canonicalize+starts_with).",
+         note="Trusted: rustc MIR; std::path semantics (Component::Normal excludes .., root, prefix). Symlinks/TOCTOU "
+              "not decided.",
+         technique="static: forward taint + edge-dominance of a structurally recognised sanitizer"))
+CHECKS.append(
+    dict(id="C20", level="other", engine="E1+E2+E3",
+         text="Per native Term/TryFromTerm impl: datatype constants, boolean constants, plain `{}` rendering with the "
+              "Display language included in the XSD lexical space, Display of f64 only off the is_infinite() edge with "
+              "INF/-INF constants; conversions parse the lexical form only behind whitelisted datatype tests and on the "
+              "literal branch. Decides the construction tables, not std's numeric round trip.",
+         note="Trusted: rustc MIR, std Display/FromStr behaviour as stated in the evidence assumptions.",
+         technique="static: table agreement + edge-dominance over MIR; one DFA inclusion"))
 NOT_APPLICABLE = [
     dict(property_id="C17", reason="relativise/resolve inverse is an equation between runtime-computed strings "
          "(byte-offset arithmetic); no structural clause that is a genuine necessary condition without freezing the "
          "code; static analysis in reach cannot decide it"),
 ]
 # properties not yet wired in this commit are listed as not applicable *for now* by gen (see below)
-PENDING = ["C01", "C02", "C03", "C05", "C06", "C07", "C08", "C10", "C11", "C12", "C13", "C14", "C15",
-           "C18", "C19", "C20"]
+PENDING = ["C01", "C02", "C03", "C05", "C06", "C07", "C08", "C11", "C12", "C13", "C14", "C15",
+           "C18"]
 for p in PENDING:
     if p not in [c["id"] for c in CHECKS]:
         NOT_APPLICABLE.append(dict(property_id=p, reason="check under construction in this commit (planned per "
